@@ -9,7 +9,7 @@ from .c02 import assignments, assignments_k, WIDE, VERYWIDE, verywide_assignment
 CFGS = {'C': 'Clone', 'CC': 'Copy, Clone', 'CC2': 'Clone, Copy'}
 
 
-def build(shape, assign, cfg, ctx='alone', bound=None):
+def build(shape, assign, cfg, ctx='alone', bound=None, honour=False):
     copy = cfg != 'C'
     has_method = any('m' in a for a in assign)
     tys, fattrs = [], []
@@ -49,7 +49,7 @@ def build(shape, assign, cfg, ctx='alone', bound=None):
         mk = ''.join('        %d => %s,\n' % (i, v) for i, v in enumerate(vals))
     src += 'fn mk(i: usize) -> Ty {\n    match i {\n%s        _ => unreachable!(),\n    }\n}\n' % mk
     arms, harms = [], []
-    bitwise = copy and not (has_method and shape.kind == 'enum')
+    bitwise = copy and not (has_method and (shape.kind == 'enum' or honour))
     for vi, f in enumerate(shape.variants):
         binds = ['a%d' % i for i in range(f.n)]
         if shape.kind == 'union':
@@ -118,6 +118,19 @@ def generate(tier):
                     c = build(sh, assign, cfg)
                 c.key += '|rot'
                 cases.append(c)
+    # `Clone(method)` on a field of a `Copy, Clone` struct: educe documents the method for enums only and refuses it on structs; if a version accepts it,
+    # the method has to be honoured like everywhere else (refused or honoured - never accepted and ignored)
+    for sh in S.struct_shapes(2):
+        if not sh.positions():
+            continue
+        for cfg in ('CC', 'CC2'):
+            for assign in assignments(sh, 'om'):
+                if not any('m' in a for a in assign):
+                    continue
+                c = build(sh, assign, cfg, honour=True)
+                c.key += '|refused-or-honoured'
+                c.expect = 'any'
+                cases.append(c)
     from .common import zoo_cases
     cases += zoo_cases('C07', 'Clone', 'Debug, PartialEq', 'Debug, PartialEq, Clone',
                        '    for (i, (a, _)) in vs.iter().enumerate() {\n        let c = a.clone();\n'
@@ -146,6 +159,8 @@ def generate(tier):
                 cases.append(build(sh, assign, 'C', ctx=ctx))
                 if not (sh.kind == 'struct' and 'm' in ''.join(assign)):
                     cases.append(build(sh, assign, 'CC' if ctx.endswith('before') else 'CC2', ctx=ctx))
+    from .common import decoy_layer
+    cases += decoy_layer([c for c in cases if c is not None])
     seen, out = set(), []
     for c in cases:
         if c.key not in seen:
